@@ -389,6 +389,7 @@ func (x *crashExec) verify(inst *kvh.Instant, upper int) {
 		// continuation: the recovered database accepts a write, and the next restart shows the
 		// recovered mapping plus that write (an interrupted tail must not poison later appends)
 		continued := false
+		tornSecond := false
 		atBlock := false
 		for _, c := range v.cuts {
 			if c > 0 && c%kvh.BlockSize == 0 {
@@ -445,10 +446,38 @@ func (x *crashExec) verify(inst *kvh.Instant, upper int) {
 			}
 			d = kvh.StateDigest(dump)
 			x.cs.labels["write-and-restart-after-recovery"]++
+			if inst.InFlight && inst.OpKind == "batch" {
+				// a SECOND failure, of the other kind: one more Put is appended and torn by a power loss (the file is cut
+				// inside that record after Close). What was written between the two failures lies before the torn record
+				// and - in the history this image stands for - was flushed: it must all be there after the next Open,
+				// whatever the first failure left in front of it (records of the interrupted batch, never sealed)
+				if err := db.Put([]byte("~torn-by-the-second-failure"), kvh.GenValue(uint64(inst.Event.Seq)+902, 11)); err != nil {
+					_ = db.Close()
+					x.fail, x.failSpec = &kvh.Fail{Sig: "write-after-recovery-fails", Msg: where + ": Put on the recovered database: " + err.Error()}, spec
+					return
+				}
+				tornSecond = true
+			}
 		}
 		if err := db.Close(); err != nil {
 			x.fail, x.failSpec = &kvh.Fail{Sig: "recovered-close-error", Msg: where + ": " + err.Error()}, spec
 			return
+		}
+		if tornSecond {
+			newest := ""
+			ents, _ := os.ReadDir(filepath.Join(img, "db"))
+			for _, en := range ents {
+				if strings.HasSuffix(en.Name(), ".data") && en.Name() > newest {
+					newest = en.Name()
+				}
+			}
+			if p := filepath.Join(img, "db", newest); newest != "" {
+				if fi, err := os.Stat(p); err == nil && fi.Size() > 3 {
+					_ = os.Truncate(p, fi.Size()-3)
+					gIO.Forget(img)
+					x.cs.labels["second-failure-tears-the-last-record-after-a-crash-inside-a-batch"]++
+				}
+			}
 		}
 		// idempotence: a second Open of the recovered directory shows the same mapping
 		if continued || (inst.Event.Seq+vi)%4 == 0 {
